@@ -100,6 +100,8 @@ func (r *c18Run) workload(kind string) {
 		// a call whose response the client cannot use (declared as a subscription, answered with a string): it stays in
 		// flight until the connection or the client goes away
 		add(rig.Go(cl, "mismatch", rig.Tok("mm"), Plan{}))
+		// and one whose request cannot be written at all (raw params that are not JSON): the same, from the other end
+		add(rig.Go(cl, "rawbad", rig.Tok("rb"), Plan{}))
 	})
 	step(func() {
 		s1 = add(rig.Go(cl, "sub", rig.Tok("s"), Plan{N: 8, Early: 1, Pace: true, Linger: true}))
